@@ -648,6 +648,24 @@ func (g *gen) helper() {
 		g.emit(o)
 		return
 	default:
+		if t.Chance(1, 3) {
+			// a whole icon path through the Material Design converter: an
+			// opacity (a blend colour into CREG[0-adj], one adj per distinct
+			// opacity), path data, and sometimes a circle (two relative arcs)
+			o := Op{K: KMDIcon, S: GenPathData(t, false)}
+			o.F[0] = []float32{1, 0.5, 0.25, 0.75, 0.125}[t.Intn(5)]
+			if t.Chance(1, 3) {
+				o.F[1], o.F[2], o.F[3] = float32(t.Range(8, 40)), float32(t.Range(8, 40)), float32(1+t.Intn(8))
+			}
+			if t.Chance(1, 6) {
+				o.S = "" // circles only
+				if o.F[3] == 0 {
+					o.F[1], o.F[2], o.F[3] = 24, 24, 6
+				}
+			}
+			g.emit(o)
+			return
+		}
 		g.emit(Op{K: KMDPath, U: g.adj(), S: GenPathData(t, false)})
 		return
 	}
